@@ -10,27 +10,6 @@ open Verif.Spec.CssValue Verif.Model.Css Verif.Gen.C04Tables Verif.Model.CssNum
 
 theorem unit_len : ∀ dim ∈ cssUnits, dim.length ≤ 5 := by decide
 
-/-- whole-table check (regenerated `optionalZeroDimension` × every CSS unit × every aliasing offset): the
-    unit bytes the zero cut looks at are in the table only if the real unit is a length or an angle -/
-theorem aliased_small : ∀ dim ∈ cssUnits, ∀ d ∈ List.range 6,
-    optionalZeroDimension.contains (aliasedDim dim d) = true →
-      (lengthUnits.contains dim || angleUnits.contains dim) = true := by
-  decide +kernel
-
-theorem aliased_unit (dim : List Char) (d : Nat) (hu : dim ∈ cssUnits)
-    (h : optionalZeroDimension.contains (aliasedDim dim d) = true) :
-    (lengthUnits.contains dim || angleUnits.contains dim) = true := by
-  by_cases hd : d < 6
-  · exact aliased_small dim hu d (List.mem_range.mpr hd) h
-  · have hl := unit_len dim hu
-    have : aliasedDim dim d = dim := by
-      unfold aliasedDim
-      have : (d == 0 || decide (dim.length ≤ d)) = true := by
-        simp; omega
-      simp [this]
-    rw [this] at h
-    exact aliased_small dim hu 0 (by decide) (by simpa [aliasedDim] using h)
-
 theorem unit_head : ∀ dim ∈ cssUnits, dim.head? ≠ some '0' := by decide
 theorem lex_zero : numOfLexeme ['0'] = some (.number 0) := by decide +kernel
 theorem lex_zero_unit : ∀ dim ∈ cssUnits, numOfLexeme ('0' :: dim) = some (.dimension 0 dim) := by
@@ -1479,5 +1458,69 @@ theorem decimal0_chars (s : List Char) : ∀ c ∈ decimal0 s, c ∈ s ∨ c = '
     all_goals
       (try simp only [List.mem_cons, List.mem_append, List.mem_nil_iff, or_false] at hc)
       grind
+
+/-! ## zero units: contexts -/
+
+/-- whole-table check (regenerated `optionalZeroDimension` × every CSS unit × every aliasing offset): the unit
+    bytes the zero cut looks at are in the table only if the real unit is a length or an angle, and if they are not
+    an angle unit the real unit is a length -/
+theorem aliased_small2 : ∀ dim ∈ cssUnits, ∀ d ∈ List.range 6,
+    optionalZeroDimension.contains (aliasedDim dim d) = true →
+      (lengthUnits.contains dim || angleUnits.contains dim) = true ∧
+      (angleDimension.contains (aliasedDim dim d) = false → lengthUnits.contains dim = true) := by
+  decide +kernel
+
+theorem known_marker : known zeroAngleFn = [] ∧ argFun [] = [] ∧ typedMathFuncs = typedMathFns ∧
+    (∀ n ∈ zeroAngleFuncs, legacyAngleFns.contains n = true ∧ typedMathFns.contains n = false) := by
+  decide +kernel
+
+theorem funHash_marker (name : List Char) (h : funHash name = zeroAngleFn) : zeroAngleFuncs.contains (lower name) = true := by
+  unfold funHash at h
+  simp only at h
+  split at h
+  · rename_i hk
+    rcases known_eq (lower name) with e | e
+    · rw [e] at h
+      have : known (lower name) = [] := by rw [h]; exact known_marker.1
+      rw [e] at this
+      rw [this] at h; exact absurd h (by decide)
+    · rw [e] at hk; simp at hk
+  · split at h
+    · assumption
+    · exact absurd h (by decide)
+
+theorem argFun_nil (name : List Char) (h : argFun name = []) : typedMathFns.contains (lower name) = false := by
+  unfold argFun at h
+  split at h
+  · exact absurd h (by decide)
+  · rename_i hc
+    rw [h] at hc
+    simp only [beq_self_eq_true, Bool.true_and, Bool.not_eq_true] at hc
+    rw [← known_marker.2.2.1]; exact hc
+
+theorem argFun_marker (name : List Char) (h : argFun name = zeroAngleFn) :
+    legacyAngleFns.contains (lower name) = true ∧ typedMathFns.contains (lower name) = false := by
+  unfold argFun at h
+  split at h
+  · exact absurd h (by decide)
+  · have := funHash_marker name h
+    exact known_marker.2.2.2 _ (by simpa using this)
+
+theorem aliased_unit2 (dim : List Char) (d : Nat) (hu : dim ∈ cssUnits)
+    (h : optionalZeroDimension.contains (aliasedDim dim d) = true) :
+    (lengthUnits.contains dim || angleUnits.contains dim) = true ∧
+    (angleDimension.contains (aliasedDim dim d) = false → lengthUnits.contains dim = true) := by
+  by_cases hd : d < 6
+  · exact aliased_small2 dim hu d (List.mem_range.mpr hd) h
+  · have hl := unit_len dim hu
+    have : aliasedDim dim d = dim := by
+      unfold aliasedDim
+      have : (d == 0 || decide (dim.length ≤ d)) = true := by
+        simp; omega
+      simp [this]
+    rw [this] at h ⊢
+    have h0 : aliasedDim dim 0 = dim := by simp [aliasedDim]
+    have := aliased_small2 dim hu 0 (by decide) (by rw [h0]; exact h)
+    rw [h0] at this; exact this
 
 end Verif.Proofs.Css
